@@ -174,6 +174,47 @@ def run(ctx, res):
                                   expected=s_["denote"], actual=py_of_impl(r["ok"]) if "ok" in r else r, oracle="ent_denote")
                 else:
                     res.nontrivial.add(t + str(norm))
+    # ---- CREATE TYPE / DOMAIN ... AS base (values): expected value = the extracted Coq denote (C18_type_domain_exact) ----------------
+    if ctx.model:
+        plain = ["my_type", "Status", "addr", "t1", "x_9", "[Dev]", "`bt`", "MixedCase", "lvl"]
+        bases = ["ENUM", "enum", "Enum", "eNuM", "CHAR", "varchar", "numeric", "mytype", "[enum]", "set_of"]
+        vwords = ["a", "b1", "V1", "low", "42", "x_y", "[q]"]
+        vlits = ["'a'", "'b c'", "'x;y'", "'V1'", "'o''k'", "'--'", "'it is'", "''", "'ENUM'", "'a\"b'"]
+        tds = []
+        for i in range(600 if ctx.thorough else 120):
+            t = rng.random() < 0.5
+            vals = [("w:" + rng.choice(vwords)) if rng.random() < 0.35 else ("s:" + rng.choice(vlits)) for _ in range(rng.choice([1, 1, 2, 3, 4, 6, 9]))]
+            tds.append(["T" if t else "D", kwc(rng, "CREATE"), kwc(rng, "TYPE" if t else "DOMAIN"), rng.choice(["", "", "s", "Dev", "[Dev]"]),
+                        rng.choice(plain), kwc(rng, "AS"), rng.choice(bases)] + vals)
+        for norm in (False, True):
+            sp = ctx.model.map([("td_spec", ["1" if norm else "0"] + a) for a in tds])
+            texts = []
+            for s_ in sp:
+                if "lexemes" not in s_:
+                    texts.append(None)
+                    continue
+                out = ""
+                for rule, tx in s_["lexemes"]:
+                    out += tx if (tx in (".", ",", ")") or out.endswith(".") or out.endswith("(")) else ((" " if out else "") + tx)
+                texts.append(out + ";")
+            for mode in ("sql", "bigquery"):
+                R4 = ctx.impl.map([{"op": "run", "ddl": t or "", "ctor": {"normalize_names": norm}, "run": {"output_mode": mode}} for t in texts])
+                res.evaluations += len(tds)
+                for a, s_, t, r in zip(tds, sp, texts, R4):
+                    if not s_.get("wf"):
+                        res.count("td_form:not_wf")
+                        continue
+                    res.count("td_form:wf")
+                    got = canon_impl(r["ok"]) if "ok" in r else ("raise", r.get("raise"))
+                    exp = s_["denote"]
+                    if mode == "bigquery" and exp.get("schema"):
+                        # C18_type_domain_bigquery: a written (non-empty) schema moves under the key dataset
+                        exp = dict([(k, v) for k, v in exp.items() if k != "schema"] + [("dataset", exp["schema"])])
+                    if got != ("list", (canon_model(exp),)):
+                        res.violation("input", "type/domain entity differs from the Coq specification (denote) in mode %s" % mode, ddl=t,
+                                      ctor={"normalize_names": norm}, expected=exp, actual=py_of_impl(r["ok"]) if "ok" in r else r, oracle="td_denote")
+                    else:
+                        res.nontrivial.add(t + str(norm) + mode)
     res.samples.append({"ddl": cases[0][1], "expected": cases[0][2]})
     res.samples.append({"ddl": cases[6][1], "expected": cases[6][2]})
 
